@@ -679,6 +679,13 @@ func vrsLattice(rep *reporter, bases []*baseTx, deadline time.Time) {
 		rs := append(append([]*big.Int(nil), bound...), b.f.r)
 		ss := append(append([]*big.Int(nil), bound...), b.f.s, new(big.Int).Sub(curveN, b.f.s))
 		vs := []*big.Int{big.NewInt(0), big.NewInt(1), big.NewInt(26), big.NewInt(27), big.NewInt(28), big.NewInt(29), big.NewInt(35), big.NewInt(36), big.NewInt(255), big.NewInt(256)}
+		// values congruent to 27 / 28 modulo 2^8, 2^32 and 2^64 (a truncating conversion of V must not
+		// turn them into a valid recovery id)
+		for _, sh := range []uint{8, 32, 63, 64} {
+			for _, lo := range []int64{27, 28} {
+				vs = append(vs, add(new(big.Int).Lsh(big.NewInt(1), sh), lo))
+			}
+		}
 		if b.s.kind == "eip155" {
 			base := add(new(big.Int).Lsh(b.s.chain, 1), 35)
 			vs = append(vs, add(base, -1), base, add(base, 1), add(base, 2), add(base, 256))
